@@ -11,6 +11,7 @@ import (
 	"encoding/json"
 	"fmt"
 	"os"
+	"strconv"
 
 	"verifharness/internal/kit"
 )
@@ -35,6 +36,12 @@ func main() {
 		cmdObj(os.Args[2], os.Args[3], os.Args[4])
 	case "replicate":
 		cmdReplicate(os.Args[2])
+	case "replicate-hist":
+		cmdReplicateHist(os.Args[2], os.Args[3])
+	case "replicate-gen":
+		n, err := strconv.Atoi(os.Args[2])
+		kit.Must(err)
+		cmdReplicateGen(n, os.Args[3])
 	case "replicate-replay":
 		cmdReplicateReplay(os.Args[2], os.Args[3])
 	case "control":
